@@ -144,5 +144,87 @@ func f(a, b A, c, d B) int {
 	s.Files["pkg/z.go"] = "//line tmpl/z.go:3\npackage pkg\n\nfunc g(c, d *B) bool {\n\treturn   deriveEqual(c, d) // same name, other types: renamed under -autoname\n}\n"
 	s.Files["pkg/tmpl/z.go"] = "package tmpl\n\n// the template z.go was instantiated from\n\nfunc X() {}\n"
 	out = append(out, s)
+	// what gofmt does beyond spacing: an unsorted import group is sorted, number literals are normalised
+	s = base("gofmt-extras", "gofmt-extras")
+	s.Files["pkg/a.go"] = `package pkg
+
+import (
+	"strings"
+	"fmt"
+	"bytes"
+)
+
+var _ = strings.TrimSpace
+var _ = bytes.Equal
+
+const mask = 0XFF00
+var big = 1E6 + 0B101 + 0O17 + 0X1P-2
+
+func f(a, b *A, c, d *B) bool {
+	fmt.Println(mask, big)
+	return deriveEqual(a, b) &&   deriveEqual(c, d)
+}
+`
+	out = append(out, s)
+
+	// syntax errors the parser recovers from WITHOUT a Bad node: the AST silently lacks text
+	s = base("broken-no-bad-node", "broken-file")
+	s.Files["pkg/b.go"] = `package pkg
+
+type Cfg struct {
+	Host string Port int
+	Retries int
+}
+
+func g2(g, h A, c, d B) bool {
+	x := deriveEqual(&g, &h)
+	y := deriveEqual(&c, &d)
+	return x && y
+}
+`
+	s.broken["pkg/b.go"] = true
+	out = append(out, s)
+
+	s = base("broken-missing-comma", "broken-file")
+	s.Files["pkg/b.go"] = `package pkg
+
+var table = []int{
+	1,
+	2
+}
+
+func g2(g, h A, c, d B) bool {
+	x := deriveEqual(&g, &h) ; y := deriveEqual(&c, &d) z := 3
+	return x && y
+}
+`
+	s.broken["pkg/b.go"] = true
+	out = append(out, s)
+
+	// many renamed calls in one file, new names of different lengths, operators glued to the calls
+	s = base("many-renames", "many-renames")
+	s.Files["pkg/a.go"] = `package pkg
+
+type LongTypeName struct{ Z []int }
+
+func f(a, b *A, c, d *B, e, g *LongTypeName, i, j []string, k, l map[string]int) bool {
+	return !!deriveEqual(a, b) && !deriveEqual(c, d) || !!deriveEqual(e, g) && -1 < +1 &&
+		!deriveEqual(i, j) || !!!deriveEqual(k, l)&&!deriveEqualX(7, 8)||!deriveEqualX("s", "t")
+}
+`
+	out = append(out, s)
+
+	// the same with repeated calls (accepted only with both flags: the repeats are deduplicated)
+	s = base("many-renames-repeats", "many-renames")
+	s.Files["pkg/a.go"] = `package pkg
+
+type LongTypeName struct{ Z []int }
+
+func f(a, b *A, c, d *B, e, g *LongTypeName, i, j []string, k, l map[string]int) bool {
+	return !!deriveEqual(a, b) && !deriveEqual(c, d) || !!deriveEqual(e, g) && -1 < +1 &&
+		!deriveEqual(i, j) || !!!deriveEqual(k, l)&&!deriveEqual(c, d)||!deriveEqual(e, g)
+}
+`
+	out = append(out, s)
 	return out
 }
